@@ -15,8 +15,8 @@ pub struct MinResult {
 
 fn has_gate(step: &Step) -> bool {
     match step {
-        Step::GateOpen(_) | Step::GateWait(_) => true,
-        Step::Acquire(a) => a.body.iter().any(|b| matches!(b, BodyOp::GateOpen(_) | BodyOp::GateWait(_))),
+        Step::GateOpen(_) | Step::GateWait(_) | Step::WaitBlocked(..) => true,
+        Step::Acquire(a) => a.body.iter().any(|b| matches!(b, BodyOp::GateOpen(_) | BodyOp::GateWait(_) | BodyOp::WaitBlocked(..))),
         _ => false,
     }
 }
@@ -198,7 +198,7 @@ pub fn minimize(orig: &Scenario, prop: &str, clause: &str, budget: u32) -> MinRe
                             if j >= a2.body.len() {
                                 break;
                             }
-                            if !matches!(a2.body[j], BodyOp::GateOpen(_) | BodyOp::GateWait(_)) {
+                            if !matches!(a2.body[j], BodyOp::GateOpen(_) | BodyOp::GateWait(_) | BodyOp::WaitBlocked(..)) {
                                 let mut c = cur.clone();
                                 if let Step::Acquire(a3) = &mut c.program.threads[t][i] {
                                     a3.body.remove(j);
